@@ -416,10 +416,16 @@ func (x *Exec) havocValue(cur Value, t types.Type, name string) Value {
 		return UnknownV{t, "pointer assigned in a loop or by a callee (" + name + ")"}
 	case IfaceV:
 		return IfaceV{Nil: Fresh(name+"!nil", BoolSort), Tag: "opaque"}
+	case *ChoiceV:
+		// a value merged from two paths is havocked like either of its sides (the result does not depend on them)
+		return x.havocValue(cv.A, t, name)
 	case ArrayRef:
 		o := cv.Obj
 		x.st.heap.m[o] = x.havocValue(x.heapGet(o), nil, name)
 		return cv
+	}
+	if _, isU := cur.(UnknownV); !isU && cur != nil {
+		x.notes[fmt.Sprintf("havoc-kept:%T:%s", cur, name)] = true
 	}
 	return cur
 }
@@ -490,6 +496,30 @@ func (x *Exec) useContract(fr *Frame, fn *ssa.Function, sp *FuncSpec, args []Val
 		unsup("contract harness of %s did not reach its call site", fn)
 	}
 	x.substituteEnsures(cm, nA, pc0)
+	if x.dry == 0 && x.ghost == 0 && !(fr != nil && fr.ghost) && !sp.Pure && len(sp.Ensures) > 0 {
+		// vacuity guard: what the callee's contract makes the caller assume must be consistent on this path
+		// (a contradictory contract, or a havoc that misses what the callee assigns, would silently prove
+		// everything that follows on the path); one guard per caller, callee and call position
+		if x.callGuards == nil {
+			x.callGuards = map[string]bool{}
+		}
+		k := x.funcName() + "|" + shortFn(fn) + "|" + x.P.Fset.Position(pos).String()
+		if !x.callGuards[k] {
+			x.callGuards[k] = true
+			x.callGuardSeq++
+			fnm := x.funcName()
+			if x.behavior != "" && fnm == x.behaviorFn {
+				fnm += "@" + x.behavior
+			}
+			// the same question just before the call: a call site on a path that is infeasible anyway
+			// (an iteration of an unrolled loop that cannot happen) is not the callee's fault
+			lbl := fmt.Sprintf("%s#%d", shortFn(fn), x.callGuardSeq)
+			x.obls = append(x.obls, &Obligation{Name: fnm + "#V:pre:" + lbl, Class: "V", Func: fnm, Label: "pre:" + lbl, NHyp: nA, PC: pc0, Goal: False(), Inputs: x.inputs})
+			x.curFunc = append(x.curFunc, x.funcName())
+			x.oblige("V", "after:"+lbl, False(), pos)
+			x.curFunc = x.curFunc[:len(x.curFunc)-1]
+		}
+	}
 	if memoKey != "" && x.dry == 0 {
 		if x.pureMemo == nil {
 			x.pureMemo = map[string]*pureEntry{}
